@@ -31,11 +31,11 @@ def run(ck):
     ck.level = "proof"
     ck.cov["rule"] = ("every component is run on histories/inputs of its own property with (1) a tracking allocator that numbers blocks, logs every entry point, and reports release through the wrong entry, "
                       "double release, release of foreign pointers and blocks outstanding at the end; (2) a guard that aborts when a zix function uses the default allocator although the caller supplied one; "
-                      "(3) zix sources compiled so that a direct call of malloc/calloc/realloc/free/posix_memalign aborts; B-tree page events and ZixTree header/node events (allocate/free with block ids) are compared with the model per call; "
+                      "(3) zix sources compiled so that a direct call of malloc/calloc/realloc/free/posix_memalign aborts; B-tree page events, ZixTree header/node events and ZixHash header/entry-array events (allocate/free with block ids) are compared with the model per call; "
                       "copy_file is run with the kernel copy available and with copy_file_range forced to EXDEV/EINVAL/ENOSYS (the user-space loop); plus a static scan of src/ for libc allocation calls")
     ck.assumptions += ["allocator.c is the only place allowed to call the C library's allocation functions"]
     if not ck.build_driver(): return
-    if not ck.prove(["ZixModel.Properties.C08", "ZixModel.Properties.C08Avl"]):
+    if not ck.prove(["ZixModel.Properties.C08", "ZixModel.Properties.C08Avl", "ZixModel.Properties.C08Hash"]):
         ck.report_proof_failure("allocator-discipline theorems no longer build")
     static_scan(ck)
     q = ck.tier == "quick"
